@@ -1,53 +1,19 @@
 //! Operations.  Each composite operation cNN gathers, for one case, everything the
 //! property's oracle needs to see (see coq/theories/Ops.v for the matching model_cNN).
+//! The suffix after the dot selects the API family: u w (byte), u8 w8 (UTF-8),
+//! tu tw (runtime-typed), t8u t8w (runtime-typed UTF-8).
+use crate::api::*;
+#[cfg(all(feature = "std", unix))]
+use crate::stdapi::*;
 use crate::val::*;
 use typed_path::*;
-
-pub trait CompVal {
-    fn val(&self) -> Val;
-}
-impl CompVal for UnixComponent<'_> {
-    fn val(&self) -> Val {
-        match self {
-            UnixComponent::RootDir => c("R", vec![]),
-            UnixComponent::CurDir => c("C", vec![]),
-            UnixComponent::ParentDir => c("P", vec![]),
-            UnixComponent::Normal(x) => c("Nm", vec![b(x)]),
-        }
-    }
-}
-
-#[cfg(all(feature = "std", unix))]
-mod stdside {
-    use super::*;
-    use std::ffi::OsStr;
-    use std::os::unix::ffi::OsStrExt;
-    use std::path::{Component, Path};
-
-    pub fn sp(bytes: &[u8]) -> &Path {
-        Path::new(OsStr::from_bytes(bytes))
-    }
-    pub fn pb(p: &Path) -> Val {
-        b(p.as_os_str().as_bytes())
-    }
-    pub fn comp(cm: &Component) -> Val {
-        match cm {
-            Component::RootDir => c("R", vec![]),
-            Component::CurDir => c("C", vec![]),
-            Component::ParentDir => c("P", vec![]),
-            Component::Normal(x) => c("Nm", vec![b(x.as_bytes())]),
-            Component::Prefix(_) => c("Px", vec![]),
-        }
-    }
-}
-#[cfg(all(feature = "std", unix))]
-use stdside::*;
 
 fn sched_of(v: &Val) -> Vec<bool> {
     v.bytes().iter().map(|x| *x != 0).collect()
 }
 
-/// c01 p sched
+/// c01 p sched : typed-path Unix components under a schedule, next to real std::path
+#[cfg(all(feature = "std", unix))]
 fn c01(args: &[Val]) -> Val {
     let p = args[0].bytes();
     let sched = sched_of(&args[1]);
@@ -63,29 +29,386 @@ fn c01(args: &[Val]) -> Val {
     let mut ssteps = Vec::new();
     for d in sched.iter() {
         let cm = if *d { sit.next_back() } else { sit.next() };
-        ssteps.push(t2(
-            opt(cm, |x| comp(&x)),
-            list(sit.as_path().components(), |x| comp(&x)),
-        ));
+        ssteps.push(t2(opt(cm, |x| comp(&x)), list(sit.as_path().components(), |x| comp(&x))));
     }
-    let tf = <UnixComponent as core::convert::TryFrom<&[u8]>>::try_from(p).ok();
-    c(
-        "c01",
-        vec![
-            Val::L(steps),
-            Val::L(ssteps),
-            Val::Bool(path.has_root()),
-            Val::Bool(path.is_absolute()),
-            Val::Bool(sp_.has_root()),
-            Val::Bool(sp_.is_absolute()),
-            opt(tf, |x| x.val()),
-        ],
-    )
+    c("c01", vec![
+        Val::L(steps),
+        Val::L(ssteps),
+        Val::Bool(path.has_root()),
+        Val::Bool(path.is_absolute()),
+        Val::Bool(sp_.has_root()),
+        Val::Bool(sp_.is_absolute()),
+        u_try_from(p),
+    ])
+}
+
+/// c03 p sched : components and iter under a schedule, with remainders and offsets
+fn c03<A: Api>(args: &[Val]) -> Val {
+    let p = args[0].bytes();
+    if !A::accepts(p) {
+        return not_utf8();
+    }
+    let sched = sched_of(&args[1]);
+    c("c03", vec![A::sched(p, &sched), A::iter_sched(p, &sched)])
+}
+
+/// c04 base p : push_checked (buffer after, error), join_checked, unchecked join
+fn c04<A: Api>(args: &[Val]) -> Val {
+    let (base, p) = (args[0].bytes(), args[1].bytes());
+    if !A::accepts(base) || !A::accepts(p) {
+        return not_utf8();
+    }
+    c("c04", vec![A::hist(base, &[c("pushc", vec![b(p)])]), A::join_checked(base, p), A::join(base, p)])
+}
+
+/// c05 a b : eq / cmp / partial_cmp / ne and the hasher feeds of both
+fn c05<A: Api>(args: &[Val]) -> Val {
+    let (a, b_) = (args[0].bytes(), args[1].bytes());
+    if !A::accepts(a) || !A::accepts(b_) {
+        return not_utf8();
+    }
+    c("c05", vec![A::eqcmp(a, b_), A::hash(a), A::hash(b_)])
+}
+
+/// c06 a b : the queries C06 names
+fn c06<A: Api>(args: &[Val]) -> Val {
+    let (a, b_) = (args[0].bytes(), args[1].bytes());
+    if !A::accepts(a) || !A::accepts(b_) {
+        return not_utf8();
+    }
+    c("c06", vec![A::parent(a), A::ancestors(a), A::names(a), A::rel(a, b_), A::eqcmp(a, b_), A::flags(a)])
+}
+
+/// hist init ops : a mutation history with a snapshot after every step
+fn hist<A: Api>(args: &[Val]) -> Val {
+    let init = args[0].bytes();
+    let ops = args[1].items();
+    if !A::accepts(init) {
+        return not_utf8();
+    }
+    for o in ops {
+        let (_, a) = o.tag();
+        for x in a {
+            match x {
+                Val::B(v) => {
+                    if !A::accepts(v) {
+                        return not_utf8();
+                    }
+                }
+                Val::L(l) => {
+                    for y in l {
+                        if !A::accepts(y.bytes()) {
+                            return not_utf8();
+                        }
+                    }
+                }
+                _ => {}
+            }
+        }
+    }
+    c("hist", vec![A::hist(init, ops)])
+}
+
+fn c08<A: Api>(args: &[Val]) -> Val {
+    let (a, b_) = (args[0].bytes(), args[1].bytes());
+    if !A::accepts(a) || !A::accepts(b_) {
+        return not_utf8();
+    }
+    c("c08", vec![A::join(a, b_), A::hist(a, &[c("push", vec![b(b_)])])])
+}
+
+/// c09 p : parent, ancestors, pop
+fn c09<A: Api>(args: &[Val]) -> Val {
+    let p = args[0].bytes();
+    if !A::accepts(p) {
+        return not_utf8();
+    }
+    c("c09", vec![A::parent(p), A::ancestors(p), A::hist(p, &[c("pop", vec![])])])
+}
+
+fn c10<A: Api>(args: &[Val]) -> Val {
+    let (a, b_) = (args[0].bytes(), args[1].bytes());
+    if !A::accepts(a) || !A::accepts(b_) {
+        return not_utf8();
+    }
+    let j = A::join(a, b_);
+    let jb = match &j {
+        Val::C(_, v) => v[0].bytes().to_vec(),
+        _ => vec![],
+    };
+    c("c10", vec![A::rel(a, b_), A::eqcmp(a, b_), j, A::rel(&jb, a)])
+}
+
+fn c11<A: Api>(args: &[Val]) -> Val {
+    let p = args[0].bytes();
+    if !A::accepts(p) {
+        return not_utf8();
+    }
+    let n = A::normalize(p);
+    let nb = n.bytes().to_vec();
+    let sched = vec![false; nb.len() + 1];
+    c("c11", vec![n, A::flags(p), A::flags(&nb), A::normalize(&nb), A::sched(&nb, &sched)])
+}
+
+fn c12<A: Api>(args: &[Val]) -> Val {
+    let (p, n) = (args[0].bytes(), args[1].bytes());
+    if !A::accepts(p) || !A::accepts(n) {
+        return not_utf8();
+    }
+    let w = A::with_file_name(p, n);
+    let wb = w.bytes().to_vec();
+    c("c12", vec![A::names(p), w, A::names(&wb), A::parent(&wb), A::parent(p), A::join(p, n)])
+}
+
+fn c13<A: Api>(args: &[Val]) -> Val {
+    let (p, e) = (args[0].bytes(), args[1].bytes());
+    if !A::accepts(p) || !A::accepts(e) {
+        return not_utf8();
+    }
+    let r = A::with_extension(p, e);
+    let rb = r.bytes().to_vec();
+    c("c13", vec![A::hist(p, &[c("sext", vec![b(e)])]), r, A::names(&rb), A::parent(&rb), A::parent(p), A::names(p)])
+}
+
+fn c17<A: Api>(args: &[Val]) -> Val {
+    let p = args[0].bytes();
+    if !A::accepts(p) {
+        return not_utf8();
+    }
+    c("c17", vec![A::is_valid(p), A::comp_valid(p), A::join_checked(b"", p)])
+}
+
+fn res<T: AB>(r: Result<T, CheckedPathError>) -> Val {
+    match r {
+        Ok(x) => c("ok", vec![b(x.ab())]),
+        Err(e) => c("err", vec![err_val(e)]),
+    }
+}
+
+/// c16 p : conversion to the other encoding (unchecked / checked), to the own encoding, and back
+fn c16(suffix: &str, args: &[Val]) -> Val {
+    let p = args[0].bytes();
+    match suffix {
+        "u" => {
+            let x = UnixPath::new(p);
+            let o = x.with_encoding::<WindowsEncoding>();
+            c("c16", vec![
+                b(o.ab()),
+                res(x.with_encoding_checked::<WindowsEncoding>()),
+                b(x.with_encoding::<UnixEncoding>().ab()),
+                res(x.with_encoding_checked::<UnixEncoding>()),
+                b(o.with_encoding::<UnixEncoding>().ab()),
+            ])
+        }
+        "w" => {
+            let x = WindowsPath::new(p);
+            let o = x.with_encoding::<UnixEncoding>();
+            c("c16", vec![
+                b(o.ab()),
+                res(x.with_encoding_checked::<UnixEncoding>()),
+                b(x.with_encoding::<WindowsEncoding>().ab()),
+                res(x.with_encoding_checked::<WindowsEncoding>()),
+                b(o.with_encoding::<WindowsEncoding>().ab()),
+            ])
+        }
+        "u8" => {
+            let st = match std::str::from_utf8(p) {
+                Ok(x) => x,
+                Err(_) => return not_utf8(),
+            };
+            let x = Utf8UnixPath::new(st);
+            let o = x.with_encoding::<Utf8WindowsEncoding>();
+            c("c16", vec![
+                b(o.ab()),
+                res(x.with_encoding_checked::<Utf8WindowsEncoding>()),
+                b(x.with_encoding::<Utf8UnixEncoding>().ab()),
+                res(x.with_encoding_checked::<Utf8UnixEncoding>()),
+                b(o.with_encoding::<Utf8UnixEncoding>().ab()),
+            ])
+        }
+        "w8" => {
+            let st = match std::str::from_utf8(p) {
+                Ok(x) => x,
+                Err(_) => return not_utf8(),
+            };
+            let x = Utf8WindowsPath::new(st);
+            let o = x.with_encoding::<Utf8UnixEncoding>();
+            c("c16", vec![
+                b(o.ab()),
+                res(x.with_encoding_checked::<Utf8UnixEncoding>()),
+                b(x.with_encoding::<Utf8WindowsEncoding>().ab()),
+                res(x.with_encoding_checked::<Utf8WindowsEncoding>()),
+                b(o.with_encoding::<Utf8WindowsEncoding>().ab()),
+            ])
+        }
+        "tu" | "tw" => {
+            let x = if suffix == "tu" { TypedPath::unix(p) } else { TypedPath::windows(p) };
+            let (o, oc, sf, sc) = if suffix == "tu" {
+                (x.with_windows_encoding(), x.with_windows_encoding_checked(), x.with_unix_encoding(), x.with_unix_encoding_checked())
+            } else {
+                (x.with_unix_encoding(), x.with_unix_encoding_checked(), x.with_windows_encoding(), x.with_windows_encoding_checked())
+            };
+            let back = if suffix == "tu" { o.with_unix_encoding() } else { o.with_windows_encoding() };
+            // the documented target variant is part of the observation
+            let ok_variants = o.is_unix() != x.is_unix() && sf.is_unix() == x.is_unix() && back.is_unix() == x.is_unix();
+            if !ok_variants {
+                return c("wrongvariant", vec![]);
+            }
+            c("c16", vec![b(o.ab()), res(oc), b(sf.ab()), res(sc), b(back.ab())])
+        }
+        "t8u" | "t8w" => {
+            let st = match std::str::from_utf8(p) {
+                Ok(x) => x,
+                Err(_) => return not_utf8(),
+            };
+            let x = if suffix == "t8u" { Utf8TypedPath::unix(st) } else { Utf8TypedPath::windows(st) };
+            let (o, oc, sf, sc) = if suffix == "t8u" {
+                (x.with_windows_encoding(), x.with_windows_encoding_checked(), x.with_unix_encoding(), x.with_unix_encoding_checked())
+            } else {
+                (x.with_unix_encoding(), x.with_unix_encoding_checked(), x.with_windows_encoding(), x.with_windows_encoding_checked())
+            };
+            let back = if suffix == "t8u" { o.with_unix_encoding() } else { o.with_windows_encoding() };
+            let ok_variants = o.is_unix() != x.is_unix() && sf.is_unix() == x.is_unix() && back.is_unix() == x.is_unix();
+            if !ok_variants {
+                return c("wrongvariant", vec![]);
+            }
+            c("c16", vec![b(o.ab()), res(oc), b(sf.ab()), res(sc), b(back.ab())])
+        }
+        _ => c("unknownfamily", vec![]),
+    }
+}
+
+/// c02 p : Windows decomposition and every prefix / root query
+fn c02(suffix: &str, args: &[Val]) -> Val {
+    use core::convert::TryFrom;
+    let p = args[0].bytes();
+    match suffix {
+        "w" => {
+            let path = WindowsPath::new(p);
+            let cs = path.components();
+            let kind = cs.prefix_kind();
+            c("c02", vec![
+                list(path.components(), |x| x.val()),
+                list(path.components().rev(), |x| x.val()),
+                c("t", vec![
+                    Val::Bool(cs.has_prefix()),
+                    opt(kind, |k| wkind_val(&k)),
+                    Val::Bool(cs.has_any_verbatim_prefix()),
+                    Val::Bool(cs.has_verbatim_prefix()),
+                    Val::Bool(cs.has_verbatim_unc_prefix()),
+                    Val::Bool(cs.has_verbatim_disk_prefix()),
+                    Val::Bool(cs.has_device_ns_prefix()),
+                    Val::Bool(cs.has_unc_prefix()),
+                    Val::Bool(cs.has_disk_prefix()),
+                    Val::Bool(cs.has_physical_root()),
+                    Val::Bool(cs.has_implicit_root()),
+                    Val::Bool(cs.has_root()),
+                    Val::Bool(cs.is_absolute()),
+                ]),
+                w_try_from(p),
+                opt(WindowsPrefixComponent::try_from(p).ok(), |x| t2(b(x.as_bytes()), wkind_val(&x.kind()))),
+                opt(kind, |k| t2(Val::I(k.len() as u64), Val::Bool(k.is_verbatim()))),
+            ])
+        }
+        "w8" => {
+            let st = match std::str::from_utf8(p) {
+                Ok(x) => x,
+                Err(_) => return not_utf8(),
+            };
+            let path = Utf8WindowsPath::new(st);
+            let cs = path.components();
+            let kind = cs.prefix_kind();
+            c("c02", vec![
+                list(path.components(), |x| x.val()),
+                list(path.components().rev(), |x| x.val()),
+                c("t", vec![
+                    Val::Bool(cs.has_prefix()),
+                    opt(kind, |k| w8kind_val(&k)),
+                    Val::Bool(cs.has_any_verbatim_prefix()),
+                    Val::Bool(cs.has_verbatim_prefix()),
+                    Val::Bool(cs.has_verbatim_unc_prefix()),
+                    Val::Bool(cs.has_verbatim_disk_prefix()),
+                    Val::Bool(cs.has_device_ns_prefix()),
+                    Val::Bool(cs.has_unc_prefix()),
+                    Val::Bool(cs.has_disk_prefix()),
+                    Val::Bool(cs.has_physical_root()),
+                    Val::Bool(cs.has_implicit_root()),
+                    Val::Bool(cs.has_root()),
+                    Val::Bool(cs.is_absolute()),
+                ]),
+                opt(Utf8WindowsComponent::try_from(st).ok(), |x| x.val()),
+                opt(Utf8WindowsPrefixComponent::try_from(st).ok(), |x| t2(b(x.as_str().ab()), w8kind_val(&x.kind()))),
+                opt(kind, |k| t2(Val::I(k.len() as u64), Val::Bool(k.is_verbatim()))),
+            ])
+        }
+        _ => c("unknownfamily", vec![]),
+    }
+}
+
+/// c15d p : which variant TypedPath::derive (and the From impls) select
+fn c15d(args: &[Val]) -> Val {
+    let p = args[0].bytes();
+    let d = TypedPath::derive(p).is_windows();
+    let mut all = vec![d, TypedPathBuf::from(p).is_windows(), TypedPathBuf::from(p.to_vec()).is_windows()];
+    if let Ok(st) = std::str::from_utf8(p) {
+        all.push(Utf8TypedPath::derive(st).is_windows());
+        all.push(Utf8TypedPathBuf::from(st).is_windows());
+        all.push(Utf8TypedPathBuf::from(st.to_string()).is_windows());
+        all.push(TypedPathBuf::from(st).is_windows());
+    }
+    if all.iter().any(|x| *x != d) {
+        return c("inconsistent", vec![]);
+    }
+    c("c15d", vec![Val::Bool(d)])
+}
+
+macro_rules! fam {
+    ($f:ident, $suffix:expr, $args:expr) => {
+        match $suffix {
+            "u" => $f::<UB>($args),
+            "w" => $f::<WB>($args),
+            "u8" => $f::<U8>($args),
+            "w8" => $f::<W8>($args),
+            "tu" => $f::<TU>($args),
+            "tw" => $f::<TW>($args),
+            "t8u" => $f::<T8U>($args),
+            "t8w" => $f::<T8W>($args),
+            "pu" => $f::<PB>($args),
+            "p8" => $f::<P8>($args),
+            #[cfg(all(feature = "std", unix))]
+            "sd" => $f::<SD>($args),
+            _ => c("unknownfamily", vec![]),
+        }
+    };
 }
 
 pub fn dispatch(op: &str, args: &[Val]) -> Val {
-    match op {
+    let (name, suffix) = match op.find('.') {
+        Some(i) => (&op[..i], &op[i + 1..]),
+        None => (op, ""),
+    };
+    match name {
+        // pair.<op> : the Unix byte family next to real std::path on the same arguments
+        "pair" => t2(dispatch(&format!("{}.u", suffix), args), dispatch(&format!("{}.sd", suffix), args)),
+        #[cfg(all(feature = "std", unix))]
         "c01" => c01(args),
+        "c02" => c02(suffix, args),
+        "c03" => fam!(c03, suffix, args),
+        "c04" => fam!(c04, suffix, args),
+        "c05" => fam!(c05, suffix, args),
+        "c06" => fam!(c06, suffix, args),
+        "hist" => fam!(hist, suffix, args),
+        "c08" => fam!(c08, suffix, args),
+        "c09" => fam!(c09, suffix, args),
+        "c10" => fam!(c10, suffix, args),
+        "c11" => fam!(c11, suffix, args),
+        "c12" => fam!(c12, suffix, args),
+        "c13" => fam!(c13, suffix, args),
+        "c15d" => c15d(args),
+        "c14c" => crate::conv::c14c(args),
+        "c19" => crate::conv::c19(args),
+        "c16" => c16(suffix, args),
+        "c17" => fam!(c17, suffix, args),
         _ => c("unknownop", vec![]),
     }
 }
